@@ -299,6 +299,22 @@ func NewNet(sim *verifsim.Sim) *Net {
 	return n
 }
 
+// AcceptTempErrors makes every listener fail its next k accepts with a temporary error (EMFILE-like) before
+// handing out the waiting connection.
+func (n *Net) AcceptTempErrors(k int) {
+	n.mu.Lock()
+	ls := make([]*Listener, 0, len(n.listeners))
+	for _, l := range n.listeners {
+		ls = append(ls, l)
+	}
+	n.mu.Unlock()
+	for _, l := range ls {
+		l.mu.Lock()
+		l.tempErr = k
+		l.mu.Unlock()
+	}
+}
+
 func (n *Net) Listen(addr string) *Listener {
 	l := &Listener{addr: tcpAddr(addr), ch: make(chan struct{}, 1), net: n}
 	n.mu.Lock()
